@@ -341,9 +341,8 @@ func (g *opGen) selForPlain(d *ast.Definition, depth int) string {
 		if g.opt.Typename && g.rng.Intn(2) == 0 {
 			parts = append(parts, "__typename")
 		}
-		if d.Kind == ast.Interface {
-			parts = append(parts, g.fieldsFor(d, depth, 1+g.rng.Intn(2))...)
-		}
+		// (the interface's own fields next to fragments that may select them again would be the listed shape
+		// C01-duplicate-response-key; the other half of the interface selections takes the fields alone)
 		for _, m := range g.schema.GetPossibleTypes(d) {
 			if g.opt.UnionPartial && g.rng.Intn(5) == 0 {
 				g.feat["union_partial"] = true
